@@ -584,10 +584,12 @@ func state1(s *scanner, c byte) state {
 func state0(s *scanner, c byte) state {
 	if c == '.' {
 		s.step = stateDot
+		s.unfinishedLiteral = true
 		return scanContinue
 	}
 	if c == 'e' || c == 'E' {
 		s.step = stateE
+		s.unfinishedLiteral = true
 		return scanContinue
 	}
 	return stateEndValue(s, c)
@@ -598,6 +600,7 @@ func state0(s *scanner, c byte) state {
 func stateDot(s *scanner, c byte) state {
 	if bytes.IsDigit(c) {
 		s.step = stateDot0
+		s.unfinishedLiteral = false
 		return scanContinue
 	}
 	panic(s.newDocumentErrorAtCharacter("after decimal point in numeric literal"))
@@ -611,6 +614,7 @@ func stateDot0(s *scanner, c byte) state {
 	}
 	if c == 'e' || c == 'E' {
 		s.step = stateE
+		s.unfinishedLiteral = true
 		return scanContinue
 	}
 	return stateEndValue(s, c)
@@ -631,6 +635,7 @@ func stateE(s *scanner, c byte) state {
 func stateESign(s *scanner, c byte) state {
 	if bytes.IsDigit(c) {
 		s.step = stateE0
+		s.unfinishedLiteral = false
 		return scanContinue
 	}
 	panic(s.newDocumentErrorAtCharacter("in exponent of numeric literal"))
